@@ -18,9 +18,13 @@ SPEC = dict(
                 "content), filter_map_async, flat_map_stream/flatten_stream, state_push, for_each/vec_push, ResolveFutures in "
                 "blocking mode over a scripted queue. The standard driver SendPush::poll (= SendSink over SinkCompat) is proved "
                 "for every pull script and poll count to honour the contract, finalize only after the pull ended and deliver "
-                "exactly the pull's items; sendPush_end_to_end and pipeline_compose chain these along arbitrary pipelines. "
+                "exactly the pull's items; sendPush_end_to_end, pipeline_compose (K1 pushing into K2) and pipeline_compose2 (a two-port "
+                "combinator feeding two sub-pipelines) chain these along arbitrary tree-shaped pipelines (worked: map->flat_map->"
+                "persist->fanout under the driver; fanout(map->fold_keyed, map)). For the non-blocking ResolveFutures "
+                "resolveNonblocking_partial proves the readiness clause and conservation (delivered ++ queued = everything). "
                 "Tie: the same op lines (bounded-exhaustive answer scripts per port x inputs x pull Pending placements + random "
-                "driver cases + adaptive contract-conforming manual call histories incl. re-polling after Done) are run on the real "
+                "driver cases + bounded-exhaustive and adaptive contract-conforming manual call histories incl. re-polling after Done; "
+                "single combinators and five nested pipelines incl. fanout(fold_keyed) and fanout(resolve_futures)) are run on the real "
                 "combinators under the real SendPush/SendSink and on the compiled model; the global downstream call trace of "
                 "every poll/call and the external state left behind are diffed; the contract and delivered-items oracle is "
                 "evaluated on the real trace against an independent iterator-level spec. Partial: ResolveFutures with a "
